@@ -363,6 +363,11 @@ func c18Direct(s *sys.System, r c18Req, gens map[string]bool) c18Result {
 			return fail
 		}
 		return c18Result{true, "okay"}
+	case "delete":
+		if err := s.DeleteLocation(ctx, loc); err != nil {
+			return fail
+		}
+		return c18Result{true, "okay"}
 	case "create":
 		created, err := s.CreateLocation(ctx, loc)
 		if err != nil || !created {
